@@ -198,8 +198,9 @@ def run(cfg, V):
             r2 = src.ChangingIndex(cfg["i"], V["y"])
             r3 = src.ChangingIndex(cfg["i"], (V["y"], "cm"))
             s = src.IndexAsScalar(cfg["i"])
+            s_cm = src.IndexAsScalar(cfg["i"], ObtainQuantity("cm", "length"))
             return _fa_obs(r) | {"src_ok": src_ok(), "vals": list(r.GetValues()), "unit": r.GetUnit(), "r2": _fa_obs(r2) | {"vals": list(r2.GetValues()), "unit": r2.GetUnit()},
-                                 "r3": _fa_obs(r3) | {"vals": list(r3.GetValues()), "unit": r3.GetUnit()}, "ias": (s.GetValue(), s.GetUnit())}
+                                 "r3": _fa_obs(r3) | {"vals": list(r3.GetValues()), "unit": r3.GetUnit()}, "ias": (s.GetValue(), s.GetUnit()), "ias_cm": (s_cm.GetValue(), s_cm.GetUnit())}
     except (ValueError, IndexError) as e:
         return {"rejected": type(e).__name__, "src_ok": src_ok()}
     return _fa_obs(r) | {"src_ok": src_ok(), "rejected": False, "eq_src": (r == src) if k == "pickle" else None}
@@ -305,6 +306,7 @@ def props(cfg, T, obs):
             P.append(("ChangingIndex(%s): only the index changes, to the supplied amount" % name,
                       z3.And(*ok, z3.BoolVal(r["unit"] == unit and len(r["vals"]) == d and r["dim"] == d))))
         P.append(("IndexAsScalar(i) is the i-th amount", z3.And(term(obs["ias"][0]) == xs[i], z3.BoolVal(obs["ias"][1] == "m"))))
+        P.append(("IndexAsScalar(i, quantity) is the i-th amount in the requested unit", z3.And(approx(obs["ias_cm"][0], xs[i] * 100), z3.BoolVal(obs["ias_cm"][1] == "cm"))))
     return P
 
 
